@@ -826,3 +826,66 @@ func replayAnalyzerParam(rc *runCtx, h *harness, v *interp.Violation, file strin
 	}
 	return false, "native: both passes use the value of their flag (" + lastLines(out, 2) + ")"
 }
+
+// replayParamCombine rebuilds the function of the model with a call site that uses the
+// signature, lets the real checker suggest, substitutes the suggestion and type-checks.
+func replayParamCombine(rc *runCtx, h *harness, v *interp.Violation, file string) (bool, string) {
+	if v.Kind == "panic" {
+		return false, "harness"
+	}
+	ch := func(k string) int {
+		if mv, ok := v.Model["choose:"+k+"?c"]; ok && mv.I != nil {
+			return int(mv.I.Int64())
+		}
+		return 0
+	}
+	nfields := 2 + ch("fields")
+	var fields, callArgs []string
+	letter := 0
+	for i := 0; i < nfields; i++ {
+		p := fmt.Sprintf("field%d", i)
+		kind, nn := ch(p+".type"), 1+ch(p+".names")
+		var names []string
+		for k := 0; k < nn; k++ {
+			names = append(names, string(rune('a'+letter)))
+			letter++
+			switch kind {
+			case 0:
+				callArgs = append(callArgs, "1")
+			case 1:
+				callArgs = append(callArgs, `"s"`)
+			case 2:
+				callArgs = append(callArgs, "nil")
+			default:
+				callArgs = append(callArgs, "1", "2", "3")
+			}
+		}
+		fields = append(fields, strings.Join(names, ", ")+" "+[]string{"int", "string", "[]int", "...int"}[kind&3])
+	}
+	src := "package cand\n\nfunc gsxF(" + strings.Join(fields, ", ") + ") {}\n\nfunc gsxUse() { gsxF(" + strings.Join(callArgs, ", ") + ") }\n"
+	if ok, msg := typeCheck(src); !ok {
+		return false, "the rebuilt program does not type-check: " + msg
+	}
+	results, err := runRealised("paramTypeCombine", nil, []string{src}, "")
+	if err != nil || len(results) == 0 || results[0].Status != "OK" {
+		return false, fmt.Sprintf("native run failed: %v", err)
+	}
+	var ws []struct{ Text string }
+	json.Unmarshal([]byte(results[0].JSON), &ws)
+	for _, w := range ws {
+		i := strings.Index(w.Text, " could be replaced with ")
+		if i < 0 {
+			continue
+		}
+		orig, sugg := w.Text[:i], w.Text[i+len(" could be replaced with "):]
+		old := "func gsxF" + strings.TrimPrefix(orig, "func")
+		if !strings.Contains(src, old) {
+			continue
+		}
+		fixed := strings.Replace(src, old, "func gsxF"+strings.TrimPrefix(sugg, "func"), 1)
+		if ok, msg := typeCheck(fixed); !ok {
+			return true, fmt.Sprintf("the real checker suggests %q for %q; with it the file no longer type-checks: %s | %s", sugg, orig, msg, strings.ReplaceAll(src, "\n", "⏎"))
+		}
+	}
+	return false, "native: the suggested signature type-checks with the existing call"
+}
